@@ -51,6 +51,10 @@ CLAIMED = {
    "TLA+ model of configuration layering (spec/LfsConfig.tla: read sources, filter .lfsconfig to the documented allow-list, Git's configuration overlays; OnlyDocumented, GitWins, Independent checked by TLC) enumerated over key classes; per case the real git-lfs is observed through `git lfs env` and sentinel programs/listeners",
    "TLC enumerates the complete product of 33 key classes (the documented allow-list and every other family git-lfs or git reads: lfs.*, lfs.<url>.*, lfs.customtransfer.*, lfs.extension.*, remote.* incl. two-part and dotted-name forms, url.*.insteadof, filter.lfs.*, credential.helper, core.askpass, core.sshcommand, http.proxy, include.path) x {lower, mixed} spelling x .lfsconfig in {work tree, index only, HEAD only} x {only in .lfsconfig, also in Git's configuration}. For each case distinguishable values are planted in the two sources and the harness observes which one git-lfs acts on; a value from .lfsconfig may be acted on only for a documented key that Git's configuration does not set.",
    "Observation channels are `git lfs env` fields and sentinels exercised by a fixed command battery (clean, smudge, fetch, locks, ls-files, push --dry-run); a key whose effect none of these shows would be missed. Bare repositories and duplicated keys are not covered.", "DESIGN.md §5 C11"),
+ "C10": ("model_checking",
+   "TLA+ model of request / challenge / redirect handling (spec/HttpAuth.tla; Confined, NoDowngrade, ChainBounded checked by TLC, pinned-code transcription kept as a violating spec mutant); TLC-generated server scripts played to the real lfsapi.Client over four listeners; request logs validated by TLC against the acceptor HttpAuthTrace",
+   "TLC explores every server behaviour of <=2 (thorough <=3) answers per identity over {https api, same host other port, other host, api host over http}, each answer 200 / 401 / redirect to any identity, x access mode {none, basic} x credential source {helper, URL userinfo}. Every finished behaviour's script is replayed against the real client; each request a listener receives is logged with the identity whose credentials its Authorization carries, and the acceptor rejects a log in which credentials reach another identity, an http request follows an https one, or a logical request takes more than 12 HTTP requests.",
+   "Only batch API requests and 307 redirects are issued; storage/verify/lock requests use the same client path. netrc, askpass and multistage credential sources are not yet covered.", "DESIGN.md §5 C10"),
 }
 
 checks = []
